@@ -155,7 +155,7 @@ class RestartFamily:
             if 'terminal-event-differs' not in cls:
                 for k in list((na[2] - nb[2]).keys()) + list((nb[2] - na[2]).keys()):
                     cls.add('generated-node-tasks' if k[1] == '~' else f"final-task:{k[2]}:{k[3]}")
-            what = sorted(cls)
+            what = sorted(cls, key=lambda c_: (not c_.startswith('generated-node'), c_))      # (the list is cut at 120 characters: the classes of the known reload defect come first)
             detail = f"run with {'eviction' if m['store'] == 'mem' else 'restart'} at quiescent point {pts} differs from the uninterrupted run: missing messages {[k[1:6] for k in list(miss)[:3]]} extra {[k[1:6] for k in list(extra)[:3]]}; events A {sorted(k[1:3] for k in na[1])} B {sorted(k[1:3] for k in nb[1])}"
             out.append(V('C12', 'divergence', f"{'|'.join(what)[:120]}:{tag}", detail, scenario=b['id']))
         return out
